@@ -389,6 +389,22 @@ def reduce_minmax(E, kind, t, dims, keepdim, node=None):
     kept_dims = [k for k in range(rank) if k not in dims]
     if getattr(E, "concrete_reductions", False) and all(concrete_int(d) is not None if is_sym(d) else True for d in t.shape):
         return _explicit_minmax(E, kind, t, dims, keepdim, kept_dims)
+    # hash-consing: a reduction of the same kind over the same dims of a tensor with syntactically the same element function is
+    # the same function of the kept indices (congruence) - it reuses the earlier uninterpreted symbol and its witnesses
+    key = _reduction_key(E, kind, t, dims)
+    memo = E.ps.setdefault("reduction_memo", {})
+    if key is not None and key in memo:
+        info = memo[key]
+        res_fn = info.res_fn
+        if keepdim:
+            oshape = [1 if k in dims else s_ for k, s_ in enumerate(t.shape)]
+            elem = lambda idx: res_fn([i for k, i in enumerate(idx) if k not in dims])
+        else:
+            oshape = [s_ for k, s_ in enumerate(t.shape) if k not in dims]
+            elem = lambda idx: res_fn(list(idx))
+        r = STensor(t.dtype, oshape, elem, device=t.device, fresh=True)
+        r.attrs["reduction"] = info
+        return r
     n = E.fresh_name(f"{kind}_{t.name}")
     srt = E.alg.sort(t.dtype)
     if kept_dims:
@@ -407,6 +423,8 @@ def reduce_minmax(E, kind, t, dims, keepdim, node=None):
             wit_fns.append(lambda kept, wc=wc: wc)
     info = RedInfo(kind, t, dims, keepdim, res_fn, wit_fns, n)
     E.ps.setdefault("reductions", []).append(info)
+    if key is not None:
+        memo[key] = info
     if keepdim:
         oshape = [1 if k in dims else s for k, s in enumerate(t.shape)]
         elem = lambda idx: res_fn([i for k, i in enumerate(idx) if k not in dims])
@@ -416,6 +434,26 @@ def reduce_minmax(E, kind, t, dims, keepdim, node=None):
     r = STensor(t.dtype, oshape, elem, device=t.device, fresh=True)
     r.attrs["reduction"] = info
     return r
+
+
+def _reduction_key(E, kind, t, dims):
+    """Structural key of a reduction: kind, dims, dtype, shape and the element term at canonical index variables (None if unavailable)."""
+    try:
+        ids = [z3.Int(f"__rk{k}") for k in range(len(t.shape))]
+        side_n = len(E.alg.side)
+        touched = E.ps.get("touched")
+        tn = len(touched) if isinstance(touched, list) else None
+        try:
+            term = t.snap()(ids)
+        finally:
+            del E.alg.side[side_n:]
+            if tn is not None:
+                del touched[tn:]
+        if not z3.is_expr(term):
+            return None
+        return (kind, tuple(dims), t.dtype, tuple(str(x) for x in t.shape), term.sexpr())
+    except Unsupported:
+        return None
 
 
 def _explicit_minmax(E, kind, t, dims, keepdim, kept_dims):
